@@ -7,7 +7,7 @@ import random
 
 ALPHA = ['a', 'b', 'c', 'd']
 BUILTINS4 = ['request', '_application', '_route', '_dispatch_state']
-KINDS = ['plain', 'lambda', 'method', 'callable', 'static', 'classm', 'decorated']
+KINDS = ['plain', 'lambda', 'method', 'callable', 'static', 'classm', 'decorated', 'rewrapped']
 
 # ------------------------------------------------------------------ model side
 
@@ -36,6 +36,9 @@ def to_model(c):
     sc = c.get('scripts') or {}
     scripts = [[[ph, inst, script_sx(s)] for ph, inst, s in sc.get('mw', [])],
                sc.get('ep', ['ctx', 'CTX']), sc.get('rn', ['resp', 'RN'])]
+    if c.get('outer'):
+        o = c['outer']
+        return [app, scripts, [o['resources'], [mw_sx(m) for m in o['mws']], o['prefix_url']]]
     return [app, scripts]
 
 
@@ -230,6 +233,19 @@ class Lab(object):
         if kind == 'classm':
             exec('class K(object):\n    @classmethod\n    def m(%s):\n        return _impl(%s)\n' % (params_src(sig, ['cls']), ds), ns)
             return ns['K'].m
+        if kind == 'rewrapped':
+            # a function that clastic has ALREADY inspected (bound in some earlier application) is wrapped
+            # afterwards by an ordinary functools.wraps decorator with its own explicit parameter list:
+            # the signature that counts is the wrapper's
+            import functools
+            from clastic import Application
+            exec('def g(zz_other, request=None):\n    return None\n', ns)
+            try:
+                Application([('/<zz_other>', ns['g'], lambda context: None)])
+            except Exception:
+                pass
+            exec('def f(%s):\n    return _impl(%s)\n' % (ps, ds), ns)
+            return functools.wraps(ns['g'])(ns['f'])
         if kind == 'decorated':
             def deco(fn):
                 def wrapper(*a, **kw):
@@ -304,15 +320,42 @@ class Lab(object):
             rn = self.make_callable(cfg['render']['sig'], cfg['render']['kind'], self.rn_impl)
         except SyntaxError as e:
             return 'HARNESS-SyntaxError:%s' % e
-        pattern = '/r' + ''.join('/<%s%s>' % (u, '+' if u in cfg.get('url_multi', ()) else '') for u in cfg['url'])
+        binds = ''.join('/<%s%s>' % (u, '+' if u in cfg.get('url_multi', ()) else '') for u in cfg['url'])
+        pattern = '/r/k' + binds
         try:
-            route = Route(pattern, ep, rn, middlewares=route_mws,
-                          resources=dict((n, self.reg['R:' + n]) for n in cfg['route_resources']))
-            self.app = Application([route], resources=dict((n, self.reg['R:' + n]) for n in cfg['resources']),
-                                   middlewares=app_mws, error_handler=ErrorHandler(reraise_uncaught=True))
+            routes = []
+            if cfg.get('decoy'):
+                # a route BEFORE the real one that matches the same paths but is passed over (POST only): it binds
+                # from the URL a name the real route takes from its route-level resources
+                from clastic import POST
+                n = cfg['decoy']
+                ep2 = self.make_callable(cfg['endpoint']['sig'], 'plain', self.decoy_impl)
+                rn2 = self.make_callable(cfg['render']['sig'], 'plain', self.decoy_impl)
+                routes.append(POST('/<%s>/k%s' % (n, binds), ep2, rn2, middlewares=route_mws,
+                                   resources=dict((x, self.reg['R:' + x]) for x in cfg['route_resources'] if x != n)))
+            routes.append(Route(pattern, ep, rn, middlewares=route_mws,
+                                resources=dict((n, self.reg['R:' + n]) for n in cfg['route_resources'])))
+            handler = ErrorHandler(reraise_uncaught=True)
+            if cfg.get('outer'):
+                o = cfg['outer']
+                for n in o['resources']:
+                    self.reg.setdefault('R:' + n, Sent('R:' + n))
+                outer_mws = [self.make_mw(m, classes) for m in o['mws']]
+                inner = Application(routes, resources=dict((n, self.reg['R:' + n]) for n in cfg['resources']),
+                                    middlewares=app_mws)
+                prefix = ''.join('/<%s>' % u for u in o['prefix_url']) or '/pre'
+                self.app = Application([(prefix, inner)], resources=dict((n, self.reg['R:' + n]) for n in o['resources']),
+                                       middlewares=outer_mws, error_handler=handler)
+            else:
+                self.app = Application(routes, resources=dict((n, self.reg['R:' + n]) for n in cfg['resources']),
+                                       middlewares=app_mws, error_handler=handler)
         except Exception as e:
             return type(e).__name__
         return 'ok'
+
+    def decoy_impl(self, kwargs):
+        self.rec.append(['enter', 'DECOY-ROUTE-SERVED', self.received(kwargs)])
+        raise self.exc('DecoyServed')()
 
     def request(self, path):
         from harness import wsgi
@@ -338,7 +381,9 @@ def impl(cfg):
     c = lab.build()
     if c != 'ok':
         return {'construct': c}
-    route_path = '/r' + ''.join('/U:%s' % u for u in cfg['url'])    # a multi binding takes exactly one segment here
+    route_path = '/r/k' + ''.join('/U:%s' % u for u in cfg['url'])    # a multi binding takes exactly one segment here
+    if cfg.get('outer'):
+        route_path = (''.join('/U:%s' % u for u in cfg['outer']['prefix_url']) or '/pre') + route_path
     obs = {'construct': 'ok'}
     for name, path in (('null', '/zzz/nomatch'), ('route', route_path)):
         o1, t1, d1 = lab.request(path)
@@ -401,16 +446,31 @@ def gen_sig(rng, first, pool, avail, max_extra=3, allow_posonly=False):
     return {'pos': pos, 'posonly': posonly, 'kwonly': kwonly, 'defaulted': defaulted}
 
 
-def gen_config(rng, defect=None, posonly=False):
+def gen_config(rng, defect=None, posonly=False, embed=None):
     pool = ALPHA + ['request', '_route', '_application', '_dispatch_state', 'context', 'e', 'f']
     url = rng.sample(ALPHA, rng.choice([0, 0, 1, 1, 2]))
     rest = [x for x in ALPHA + ['e', 'f'] if x not in url]
     resources = rng.sample(rest, rng.choice([0, 0, 1, 2]))
     rest = [x for x in rest if x not in resources]
-    route_resources = rng.sample(rest, rng.choice([0, 0, 0, 1])) if rest else []
+    route_resources = rng.sample(rest, rng.choice([0, 0, 1, 1])) if rest else []
     rest = [x for x in rest if x not in route_resources]
-    base = url + resources + route_resources + BUILTINS4
+    # optionally the whole application is embedded in an outer one under a prefix (with its own resources,
+    # middlewares and URL bindings in the prefix)
+    outer = None
+    n_outer = 0
+    if embed is None:
+        embed = rng.random() < 0.35
+    if embed:
+        o_url = rng.sample(rest, rng.choice([0, 0, 1])) if rest else []
+        rest = [x for x in rest if x not in o_url]
+        o_res = rng.sample(rest, rng.choice([0, 1, 1])) if rest else []
+        rest = [x for x in rest if x not in o_res]
+        outer = {'resources': o_res, 'prefix_url': o_url, 'mws': []}
+        n_outer = rng.choice([0, 1, 1, 2])
+    o_names = (outer['resources'] + outer['prefix_url']) if outer else []
+    base = url + resources + route_resources + o_names + BUILTINS4
     app_base = resources + BUILTINS4          # what the null route can see
+    outer_base = (outer['resources'] if outer else []) + BUILTINS4
     n_app, n_route = rng.choice([(0, 0), (1, 0), (0, 1), (1, 1), (2, 0), (2, 1), (1, 2), (2, 2)])
     types = {}
     inst = 0
@@ -433,8 +493,8 @@ def gen_config(rng, defect=None, posonly=False):
                 'provides': fresh_names(rng.choice([0, 1, 1, 2])) if (has_req or rng.random() < 0.1) else [],
                 'endpoint_provides': fresh_names(rng.choice([0, 1])) if has_ep else [],
                 'render_provides': fresh_names(rng.choice([0, 1])) if has_rn else []}
-    mws_app, mws_route = [], []
-    for lvl, n, out in (('app', n_app, mws_app), ('route', n_route, mws_route)):
+    mws_outer, mws_app, mws_route = [], [], []
+    for lvl, n, out in (('outer', n_outer, mws_outer), ('app', n_app, mws_app), ('route', n_route, mws_route)):
         for _ in range(n):
             if types and rng.random() < 0.15:
                 t = rng.choice(list(types.values()))          # a second instance of an existing type
@@ -444,7 +504,7 @@ def gen_config(rng, defect=None, posonly=False):
             out.append({'inst': inst, 'type': t, 'level': lvl})
             inst += 1
     # signatures: available names per position (request phase)
-    all_mws = mws_app + mws_route
+    all_mws = mws_outer + mws_app + mws_route
     req_prov_before = []
     acc_req = []
     for m in all_mws:
@@ -455,7 +515,7 @@ def gen_config(rng, defect=None, posonly=False):
     for k, m in enumerate(all_mws):
         t = m['type']
         if 'sigs' not in t:
-            b = app_base if m['level'] == 'app' else base
+            b = outer_base if m['level'] == 'outer' else (app_base if m['level'] == 'app' else base)
             has_req, has_ep, has_rn = t['has']
             t['sigs'] = {
                 'request': gen_sig(rng, ['next'], pool, b + req_prov_before[k], 2, posonly) if has_req else None,
@@ -479,8 +539,17 @@ def gen_config(rng, defect=None, posonly=False):
            'mws': [spec(m) for m in mws_app], 'route_mws': [spec(m) for m in mws_route],
            'endpoint': {'sig': ep_sig, 'kind': rng.choice(KINDS)},
            'render': {'sig': rn_sig, 'kind': rng.choice(KINDS)}}
+    if outer is not None:
+        outer['mws'] = [spec(m) for m in mws_outer]
+        cfg['outer'] = outer
+    if route_resources and rng.random() < 0.6:
+        cfg['decoy'] = rng.choice(route_resources)
     if defect:
         apply_defect(rng, cfg, defect)
+    d = cfg.get('decoy')
+    if d and (d in cfg['url'] or d in (cfg.get('outer') or {}).get('prefix_url', []) or cfg['route_resources'].count(d) != 1
+              or d in BUILTINS4 + ['context', 'next']):
+        del cfg['decoy']                  # the decoy pattern would bind one name twice: an invalid pattern, not this lab's subject
     cfg['scripts'] = gen_scripts(rng, cfg)
     return cfg
 
@@ -488,11 +557,13 @@ def gen_config(rng, defect=None, posonly=False):
 DEFECTS = ['dup_mw_mw', 'dup_mw_url', 'dup_mw_resource', 'dup_mw_builtin', 'dup_url_resource', 'dup_url_builtin',
            'reserved_resource', 'reserved_route_resource', 'first_not_next', 'no_params', 'next_in_endpoint',
            'next_in_render', 'context_in_request', 'context_in_endpoint', 'late_provider', 'unknown_name',
-           'dup_within_tuple', 'cycle', 'ep_provides_in_render', 'first_not_next_instance', 'dup_same_mw_two_phases']
+           'dup_within_tuple', 'cycle', 'ep_provides_in_render', 'first_not_next_instance', 'dup_same_mw_two_phases',
+           'dup_prefix_resource', 'dup_prefix_mw', 'dup_prefix_builtin', 'reserved_outer_resource', 'dup_outer_mw_inner_mw',
+           'dup_prefix_outer_resource']
 
 
 def all_specs(cfg):
-    return cfg['mws'] + cfg['route_mws']
+    return (cfg['outer']['mws'] if cfg.get('outer') else []) + cfg['mws'] + cfg['route_mws']
 
 
 def apply_defect(rng, cfg, d):
@@ -508,7 +579,35 @@ def apply_defect(rng, cfg, d):
         tup = rng.choice(['provides', 'endpoint_provides', 'render_provides'])
         m[tup] = m[tup] + [name]
         sync(cfg, m)
-    if d == 'dup_mw_mw' and len(specs) >= 2:
+    if d in ('dup_prefix_resource', 'dup_prefix_mw', 'dup_prefix_builtin', 'reserved_outer_resource', 'dup_outer_mw_inner_mw',
+             'dup_prefix_outer_resource'):
+        if not cfg.get('outer'):
+            cfg['outer'] = {'resources': [], 'prefix_url': [], 'mws': []}
+        o = cfg['outer']
+        if d == 'dup_prefix_resource':
+            which = rng.choice(['resources', 'route_resources'])
+            if not cfg[which]:
+                cfg[which] = ['pz']
+            o['prefix_url'] = o['prefix_url'] + [cfg[which][0]]
+        elif d == 'dup_prefix_outer_resource':
+            if not o['resources']:
+                o['resources'] = ['oz']
+            o['prefix_url'] = o['prefix_url'] + [o['resources'][0]]
+        elif d == 'dup_prefix_mw' and specs:
+            n = 'pq'
+            o['prefix_url'] = o['prefix_url'] + [n]
+            inner = cfg['mws'] + cfg['route_mws']
+            add_prov(rng.choice(inner) if inner else some_mw(), n)
+        elif d == 'dup_prefix_builtin':
+            o['prefix_url'] = o['prefix_url'] + [rng.choice(reserved)]
+        elif d == 'reserved_outer_resource':
+            o['resources'] = o['resources'] + [rng.choice(reserved)]
+        elif d == 'dup_outer_mw_inner_mw' and o['mws'] and (cfg['mws'] + cfg['route_mws']):
+            a, b = rng.choice(o['mws']), rng.choice(cfg['mws'] + cfg['route_mws'])
+            add_prov(a, 'zy')
+            if a['id'] != b['id']:
+                add_prov(b, 'zy')
+    elif d == 'dup_mw_mw' and len(specs) >= 2:
         a, b = rng.sample(specs, 2)
         n = 'zz'
         add_prov(a, n)
@@ -550,7 +649,7 @@ def apply_defect(rng, cfg, d):
         c = [m for m in specs if m.get('request') is not None]
         if c:
             m = rng.choice(c)
-            lst = cfg['mws'] if m in cfg['mws'] else cfg['route_mws']
+            lst = [l for l in ((cfg.get('outer') or {}).get('mws', []), cfg['mws'], cfg['route_mws']) if any(x is m for x in l)][0]
             clone = json.loads(json.dumps(m))
             clone['inst'] = max(x['inst'] for x in specs) + 1
             clone['provides'], clone['endpoint_provides'], clone['render_provides'] = [], [], []
